@@ -4,7 +4,7 @@
 usage: seed_eval2.py <worktree> <property id> [<other check ids> ...]
 for each k: demo on the original code must PASS; apply the patch, build, the project's test suite must pass, the demo must FAIL; revert;
 then the patch is applied to a scratch copy of /repo (tools/mut.py --patch) and the quick tier of the given checks runs against it.
-Stored as /verif/seeded/<property id>-g<k>/{patch.diff, demo/, meta.json}."""
+Stored as /verif/seeded/<property id>-<round><k> (SEED_ROUND, default g)/{patch.diff, demo/, meta.json}."""
 import json
 import os
 import shutil
@@ -38,7 +38,7 @@ def main():
         if not os.path.exists(patch):
             print('SEED %s-g%s: no patch delivered' % (pid, k))
             continue
-        sid = '%s-g%s' % (pid, k)
+        sid = '%s-%s%s' % (pid, os.environ.get('SEED_ROUND', 'g'), k)
         meta = dict(seed=sid, property=pid, worktree=wt, base=base, ran=[])
         meta['files'] = [l[6:].strip() for l in open(patch) if l.startswith('+++ b/')]
         rc_d0, out_d0 = sh('bash SEED/%s/demo.sh' % k, wt, timeout=900)
